@@ -3088,7 +3088,7 @@ func _range(n *node) {
 				return tnext
 			}
 		} else {
-			value = genValueRangeArray(an)
+			value = genValueRangeArray(an, isBlank(n.child[1]))
 			n.exec = func(f *frame) bltn {
 				a := f.data[index2]
 				v0 := f.data[index0]
@@ -3106,7 +3106,7 @@ func _range(n *node) {
 		if isString(an.typ.TypeOf()) {
 			value = genValueAs(an, rat) // range on string iterates over runes
 		} else {
-			value = genValueRangeArray(an)
+			value = genValueRangeArray(an, true)
 		}
 		n.exec = func(f *frame) bltn {
 			v0 := f.data[index0]
